@@ -165,6 +165,25 @@ def structured():
                           ("refresh-then-rec", [("rparse", "client_1", ("tok", 2), None), ("proc", 2, None), ("api_revoke", ("tok", 2), True)]),
                           ("expire-access", [("tick", 601)]), ("expire-refresh", [("tick", 3601)]), ("expire-grant", [("tick", 43201)])]:
             cases.append(("cascade-%s-%s" % ("oidc" if oidc else "oauth2", name), oidc, False, base + rev + probes + probes))
+    # revocation of a branch that is revoked already, and of a branch re-used by a later login of the same user
+    # at the same client (the user / client nodes of a revoked session stay in the database and are re-used)
+    for oidc in (True, False):
+        a1 = 1
+        relogin = [("authz", "diana", "client_1", sc), ("tparse", "client_1", ("tok", 0), "same"), ("proc", 0, None),
+                   ("revoke_client", 0),
+                   ("authz", "diana", "client_1", sc)]
+        c2 = 4 if oidc else 3
+        relogin += [("tparse", "client_1", ("tok", c2), "same"), ("proc", 1, None),
+                    ("introspect", "client_1", ("tok", c2 + 1)), ("introspect", "client_1", ("tok", c2 + 2)),
+                    ("revoke_client", 1),
+                    ("introspect", "client_1", ("tok", c2 + 1)), ("introspect", "client_1", ("tok", c2 + 2)),
+                    ("rparse", "client_1", ("tok", c2 + 2), None), ("proc", 2, None),
+                    ("authz", "diana", "client_1", sc), ("revoke_grant", 2), ("revoke_grant", 2), ("revoke_client", 0), ("revoke_client", 2)]
+        cases.append(("relogin-after-logout-%s" % ("oidc" if oidc else "oauth2"), oidc, False, relogin))
+        twice = [("authz", "babs", "client_2", sc), ("authz", "babs", "client_2", sc), ("tparse", "client_2", ("tok", 1), "same"),
+                 ("proc", 0, None), ("revoke_grant", 0), ("revoke_client", 0), ("introspect", "client_2", ("tok", 2)),
+                 ("revoke_client", 1), ("introspect", "client_2", ("tok", 2))]
+        cases.append(("revoke-twice-%s" % ("oidc" if oidc else "oauth2"), oidc, False, twice))
     return cases
 
 
